@@ -69,9 +69,9 @@ func vH_C04_input_direction() {
 	legit := (isClient && vRefServerSends(proto)) || (!isClient && vRefClientSends(proto))
 	if !legit {
 		vAssert(err != nil, "a segment type the peer cannot send is refused with an error")
-		vAssert(vTrees[s.recvQueue.tr].n == 0 && vTrees[s.recvBuf.tr].n == 0, "a refused segment is not queued for the application")
+		vAssert(vModelOf(s.recvQueue).n == 0 && vModelOf(s.recvBuf).n == 0, "a refused segment is not queued for the application")
 		vAssert(s.nextRecv.Load() == r0, "a refused segment is not acknowledged")
-		vAssert(len(vOutputs) == 0 && vTrees[s.sendQueue.tr].n == 0, "a refused segment triggers no transmission")
+		vAssert(len(vOutputs) == 0 && vModelOf(s.sendQueue).n == 0, "a refused segment triggers no transmission")
 		vAssert(!s.clientUseLowEntropy.Load(), "a refused segment does not switch the session to low entropy")
 		closed := false
 		select {
@@ -124,7 +124,7 @@ func vH_C02_window_update() {
 	err := s.input(seg)
 	vAssert(err == nil, "a well-formed data/ack segment is accepted")
 	vAssert(s.remoteWindowSize.Load() == uint32(das.windowSize), "the send window follows the window advertised by every accepted data/ack segment (also with nothing in flight)")
-	sb := vTrees[s.sendBuf.tr]
+	sb := vModelOf(s.sendBuf)
 	left := 0
 	for i := 0; i < 2; i++ {
 		if i < k {
@@ -160,7 +160,7 @@ func vH_C02_open_response_reliable() {
 	vOutputs = nil
 	err := s.input(seg)
 	vAssert(err == nil, "open-session request accepted")
-	sq := vTrees[s.sendQueue.tr]
+	sq := vModelOf(s.sendQueue)
 	vAssert(sq.n == 1 && sq.items[0].Protocol() == openSessionResponse, "the open-session response is queued in the send queue (retransmittable), exactly once")
 	vAssert(vSeq(sq.items[0]) == ns && s.nextSend.Load() == ns+1, "it takes the next sequence number, which is consumed")
 	vAssert(len(vOutputs) == 0, "it does not bypass the queue")
